@@ -174,6 +174,9 @@ def _setup():
         PI.PipeChannel._xv_wrapped = True
 
 
+_REAP_ONLY = False  # narrow alphabet: only the lines that reap the child / read or write its return code
+
+
 def _traced():
     import xonsh.procs.jobs as J
     import xonsh.procs.pipelines as P
@@ -191,6 +194,8 @@ def _traced():
     fs += [R.populate_fd_queue, P._read_all, P._drain_stdout, P.safe_readlines, P.safe_readable, J.proc_untraced_waitpid]
     fs += [subprocess.Popen._internal_poll, subprocess.Popen._try_wait, subprocess.Popen._wait, subprocess.Popen._handle_exitstatus, subprocess.Popen.poll]
     codes = pysched.codes_of(*fs)
+    if _REAP_ONLY:
+        return pysched.shared_lines(codes, [r"returncode", r"os\.waitpid|_waitpid\(|_waitpid_lock|_handle_exitstatus|sts\b", r"\.poll\(|\.wait\("])
     return pysched.shared_lines(
         codes,
         [r"\.closed\b", r"\.queue\b", r"is_alive|\.join\(|\.wait\(|\.poll\(", r"returncode", r"read_queue|readlines|iterqueue|read\(|_read_write", r"close_writer|close_reader|_write_fd|_read_fd|_lock", r"os\.read|os\.waitpid|queue\.(put|get)", r"\.start\(", r"time\.sleep|sleep\(", r"hasattr\(self", r"prevs_are_closed|\.lines\b|_raw_output|\.ended\b|yield|safe_fdclose|is_fully_read|suspended", r"_waitpid\(|_waitpid_lock|_handle_exitstatus|sts\b"],
@@ -323,7 +328,7 @@ def _check(r, prefix):
     kind, actions = SHAPES[_SHAPE]
 
     def V(key, clause, observed, expected):
-        viols.append({"key": f"T3:{key}", "clause": clause, "case": {"tier": "T3", "shape": _SHAPE}, "observed": observed, "expected": expected})
+        viols.append({"key": f"T3:{key}", "clause": clause, "case": {"tier": "T3", "shape": _SHAPE, "reap": _REAP_ONLY}, "observed": observed, "expected": expected})
 
     if r.outcome or r.error or r.errors:
         V(f"abnormal:{r.outcome or 'exception'}:{_SHAPE.split('-')[0]}", "no deadlock / livelock / exception under any schedule", [r.outcome, r.error, [e[1][:200] for e in r.errors]], "normal completion")
@@ -350,7 +355,7 @@ def _check(r, prefix):
 
 
 def run_part(ctx):
-    global _SHAPE
+    global _SHAPE, _REAP_ONLY
     if not os.path.exists(PUPPET):
         ctx.assumptions.append("puppet helper missing (setup.sh not run?): T3 skipped")
         return None
@@ -370,7 +375,7 @@ def run_part(ctx):
                 ctx.add_violations([dict(v, key=v["key"] + ":default-schedule") for v in v0])
                 ctx.log(f"T3 {name}: default schedule already violates: {v0[0]['key']} {str(v0[0]['observed'])[:200]}")
                 continue
-            viols, st = pysched.explore(_body, _check, traced, bound, ctx, setup=_setup, max_execs_per_shard=ctx.pick(400, 40000), max_steps=60000, budget_s=ctx.pick(60, 50))
+            viols, st = pysched.explore(_body, _check, traced, bound, ctx, setup=_setup, max_execs_per_shard=ctx.pick(400, 40000), max_steps=60000, budget_s=ctx.pick(60, int(__import__("os").environ.get("XV_T3_BUDGET", "50"))))
             ctx.add_violations(viols)
             total["executions"] += st.executions
             total["steps"] += st.steps
@@ -378,6 +383,24 @@ def run_part(ctx):
             total["capped"] = total["capped"] or st.capped
             per[name] = st.executions
             ctx.log(f"T3 {name}: {st.executions} schedules, {st.steps} steps, max {st.max_choice_points} choice points, {len(viols)} raw violations")
+        # the reaping race: xonsh reaps children out of band (os.waitpid in proc_untraced_waitpid, from the
+        # main thread AND from PopenThread.run) next to Popen's own poll()/wait(); on the narrow alphabet
+        # of lines that reap the child or touch its return code a deeper bound is affordable
+        _REAP_ONLY = True
+        try:
+            rtraced = _traced()
+            for name in ["!(P)-empty-rc3"] + (["$(P)-one-line-rc3", "!(P)-out-err"] if ctx.thorough else []):
+                _SHAPE = name
+                viols, st = pysched.explore(_body, _check, rtraced, bound + 1, ctx, setup=_setup, max_execs_per_shard=ctx.pick(20000, 400000), max_steps=60000, budget_s=ctx.pick(120, 900))
+                ctx.add_violations([dict(v, key=v["key"] + ":reap-alphabet") for v in viols])
+                total["executions"] += st.executions
+                total["steps"] += st.steps
+                total["sigs"] |= st.sigs
+                total["capped"] = total["capped"] or st.capped
+                per[name + " [reap alphabet, bound %d]" % (bound + 1)] = st.executions
+                ctx.log(f"T3 {name} (reap alphabet, deviation bound {bound + 1}): {st.executions} schedules, {st.steps} steps, max {st.max_choice_points} choice points, {len(viols)} raw violations")
+        finally:
+            _REAP_ONLY = False
     finally:
         pysched.COST_MODE = "preemption"
     ctx.sample({"tier": "T3", "shape": names[0], "child_script": [[a[0], a[1]] + ([a[2].decode("latin1")] if len(a) > 2 else []) for a in SHAPES[names[0]][1]], "deviation_bound": bound})
@@ -391,8 +414,10 @@ def run_part(ctx):
 
 
 def replay(rec):
-    global _SHAPE
+    global _SHAPE, _REAP_ONLY
     _SHAPE = rec["case"]["shape"]
+    _REAP_ONLY = bool(rec["case"].get("reap"))
+    pysched.COST_MODE = "deviation"
     _setup()
     r = pysched.run_once(_body, rec["case"].get("schedule", []), _traced(), 60000)
     vs = _check(r, [])
